@@ -65,6 +65,7 @@ var bceJustified = map[string]string{
 	"(*huffmanNode).add|index|node.sub[i] = &huffmanNode{...}":                             "init-time table construction",
 	"(*Priority).Deserialize|index|fr.payload[4]":                                          "len(fr.payload) >= 5 on this branch (rule fixed-size-exact)",
 	"(*serverConn).handleStreams|index|closedRing[closedOldest]":                           "closedOldest is kept in 0..closedStrmsCap-1 by the modulo and the ring has closedStrmsCap entries on this branch (len == cap tested by the else)",
+	"(*serverConn).handleStreams|index|markClosed(fr.Stream(), true)":                      "markClosed inlined at the refusal site: closedOldest is kept in 0..closedStrmsCap-1 by the modulo and the ring has closedStrmsCap entries on this branch (len == cap tested by the else)",
 	"(*serverConn).handleStreams|index|strms[0]":                                           "deleteUntil counts streams of strms, and each iteration removes exactly strms[0] via closeStream -> strms.Del",
 	"(*serverConn).refillPending|slice|strm.bodyBuf[:maxDataFrameSize]":                    "cap(strm.bodyBuf) >= maxDataFrameSize is established two lines above",
 	"(*serverConn).refillPending|slice|buf[:n]":                                            "n is the count returned by io.Reader.Read(buf)",
